@@ -66,7 +66,9 @@ def op_expr(o):
         return 'Add KDest %s %s %s' % (z(a[0]), z(a[1]), z(a[2]))
     if n[0] == 'f' and len(n) == 2:
         return 'Find %s %s' % (KINDS[n[1]], z(a[0]))
-    if n[0] == 'd' and len(n) == 2:
+    if n[0] in 'dD' and len(n) == 2:
+        # Dp / Dx / Ds / Dc: the handle is dropped while another thread holds the conductor mutex for a while - the destructor waits and then
+        # releases, so the operation is the plain drop for the model (the lock only delays)
         return 'DropHandle %s %s' % (KINDS[n[1]], z(a[0]))
     if n[0] == 'p' and len(n) == 2:
         return 'Peek %s %s' % (KINDS[n[1]], z(a[0]))
@@ -710,6 +712,40 @@ def scripted():
     h('chan-error-ring-full', 'hb 1000000; as 1 1; ap 2 2; we sr 1 6; we pr 2 2 2 5 3 6; fs 1; fp 2; rf 1; dp 2; we er 6 4; fp 2; ds 1; rf 0; fs 1; fp 2; ap 1 1')
     h('chan-error-driver-inactive-drop', 'hb 1000000; ap 1 1; we pr 1 1 1 5 3 6; fp 1; we er 6 4; tk 10001; w; dp 1; fp 1')
     h('error-code-4-vs-others-same-id', 'hb 1000000; as 6 6; we sr 1 1; fs 1; we er 1 3; fs 1; we er 1 4; fs 1; ps 1; we er 1 5; fs 1')
+    # destination requests are stamped with the clock at the call, not with the time of the last duty cycle: duty cycle at T0, the four
+    # requests at T0+4000, no answer; lookups at T0+T+1 (stale stamp would time out here), request+T (not yet) and request+T+1 (time-out)
+    h('dest-timeout-from-request-not-last-cycle',
+      'hb 1000000; as 1 1; w; tk 4000; ad 0 1 1; ad 1 1 2; ad 2 1 3; ad 3 1 4; tk 6001; fd 2; fd 3; fd 4; fd 5; tk 3999; fd 2; fd 3; fd 4; fd 5;'
+      'tk 1; fd 2; fd 3; fd 4; fd 5; fd 2')
+    for v in (0, 1, 2, 3):
+        # the same per variant, with a duty cycle between request and lookups and an answer for a second request
+        h('dest-timeout-boundary-variant-%d' % v,
+          'hb 1000000; w; tk 2500; ad %d 7 1; tk 1500; w; ad %d 7 2; tk 6001; fd 1; fd 2; tk 2499; fd 1; tk 1; fd 1; fd 2; hb 1012501; we os 2; fd 2; tk 1500; fd 2; fd 1' % (v, v),
+          cfg=(0, 1000000, 10000, 20000))
+    # publications / subscriptions / counters requested some time after the last duty cycle (same clause)
+    h('add-after-idle-timeout-from-request', 'hb 1000000; w; tk 4000; ap 1 1; as 1 1; ac 1 1 1; tk 6001; fp 1; fs 2; fc 3; tk 3999; fp 1; fs 2; fc 3; tk 1; fp 1; fs 2; fc 3')
+    # the last handle goes away while another thread is inside the conductor (Dp / Ds / Dc: a helper thread holds the conductor mutex for
+    # 150 ms): the destructor must wait and still send exactly one Remove command
+    h('drop-while-conductor-locked', 'hb 1000000; ap 1 1; as 1 1; ac 1 1 1; we pr 1 1 1 5 3 4; we sr 2 6; we cr 3 9; fp 1; fs 2; fc 3; we ai 70 1 1 2; Dp 1; Ds 2; Dc 3; fp 1; fs 2; fc 3; Dp 1; Dc 3')
+    h('drop-while-conductor-locked-after-close', 'hb 1000000; ap 1 1; ac 1 1 1; we pr 1 1 1 5 3 4; we cr 2 9; fp 1; fc 2; cl; Dp 1; Dc 2; fp 1')
+    # the client id is a value of the driver's 64-bit correlation counter: heartbeat counter found / lost / slot reused with ids beyond 32 bits
+    for c0 in (2 ** 31, 2 ** 32 + 5, 2 ** 40):
+        a = c0 + 1
+        h('heartbeat-lost-client-id-%d' % c0, 'hb 1000000; hc 1; as 1 1; tk 501; w; we sr %d 6; fs %d; tk 501; w; hc 2; tk 501; w; fs %d; ps %d; tk 501; w' % (a, a, a, a),
+          cfg=(c0, 1000000, 10000, 5000))
+        h('heartbeat-slot-reused-other-client-id-%d' % c0, 'hb 1000000; hc 1; as 1 1; tk 501; w; we sr %d 6; fs %d; hc 3; tk 501; w; fs %d; ps %d' % (a, a, a, a),
+          cfg=(c0, 1000000, 10000, 5000))
+    # an ERROR event whose offending id is an ALREADY REGISTERED resource (the driver answers twice / late): on_error_response marks it Errored,
+    # but a handle that exists keeps being handed out, and close / client time-out still closes it (callbacks exactly once)
+    h('error-for-registered-counter-held', 'hb 1000000; ac 1 1 1; we cr 1 9; fc 1; we er 1 3; fc 1; pc 1; fc 1; cl; pc 1; fc 1')
+    h('error-for-registered-counter-held-client-timeout', 'hb 1000000; ac 1 1 1; ac 2 2 2; we cr 1 9; we cr 2 8; fc 1; fc 2; we er 1 3; fc 1; fc 2; we ct 0; pc 1; pc 2; fc 1')
+    h('error-for-registered-counter-cached', 'hb 1000000; ac 1 1 1; we cr 1 9; we er 1 3; fc 1; pc 1; fc 1; we ct 0; pc 1')
+    h('error-for-registered-counter-cached-then-stall', 'hb 1000000; ac 1 1 1; we cr 1 9; we er 1 3; fc 1; tk 5001; hb 1005001; w; pc 1; fc 1')
+    h('error-for-registered-publication-held', 'hb 1000000; ap 1 1; we pr 1 1 1 5 3 4; fp 1; we er 1 3; fp 1; pp 1; cl; pp 1; fp 1')
+    h('error-for-registered-publication-not-looked-up', 'hb 1000000; ap 1 1; we pr 1 1 1 5 3 4; we er 1 3; fp 1; fp 1; cl')
+    h('error-for-registered-subscription-held', 'hb 1000000; as 1 1; we sr 1 6; fs 1; we ai 50 1 2 1; we er 1 3; fs 1; ps 1; cl; ps 1; fs 1')
+    h('error-for-registered-subscription-cached', 'hb 1000000; as 1 1; we sr 1 6; we ai 50 1 2 1; we er 1 3; fs 1; ps 1; fs 1; we ct 0; ps 1')
+    h('error-for-registered-destination', 'hb 1000000; ad 0 1 1; we os 1; fd 1; we er 1 3; fd 1; fd 1')
     if has_find_excl_hook():
         h('chan-error-xpub', 'hb 1000000; ax 1 1; ax 2 2; ax 3 3; we xr 1 1 5 3 6; we xr 2 2 5 3 6; we xr 3 3 5 3 7; fx 1; fx 3; we er 6 4; px 1; fx 1; fx 2; fx 3; px 3; dx 1; we er 6 4; fx 2; cl')
     if has_find_excl_hook():
@@ -722,8 +758,23 @@ def scripted():
         h('xpub-client-timeout', 'hb 1000000; ax 4 9; we xr 1 9 5 3 4; fx 1; we ct 0; px 1; fx 1; dx 1; w')
         h('xpub-ring-full-drop', 'hb 1000000; ax 4 9; we xr 1 9 5 3 4; fx 1; rf 1; dx 1; fx 1; rf 0; fx 1; cl')
         h('xpub-close-then-drop', 'hb 1000000; ax 1 1; we xr 1 1 5 3 4; cx 1; fx 1; cx 1; px 1; fx 1; dx 1; fx 1; cx 1; ax 2 2 488; we xr 3 2 5 3 4; fx 3; cx 3; cl; px 3; dx 3')
+        h('xpub-drop-while-conductor-locked', 'hb 1000000; ax 4 9; we xr 1 9 5 3 4; fx 1; Dx 1; fx 1; Dx 1; ax 4 9; we xr 3 9 5 3 4; fx 3; cx 3; Dx 3')
+        h('error-for-registered-xpub', 'hb 1000000; ax 4 9; ax 5 9; we xr 1 9 5 3 4; we xr 2 9 5 3 4; fx 1; we er 1 3; we er 2 3; fx 1; px 1; fx 2; fx 2; cl; px 1')
         h('xpub-same-while-held', 'hb 1000000; ax 4 9; ax 4 9; we xr 2 9 5 3 4; we xr 1 9 5 3 4; fx 2; fx 1; fx 2; fx 1; px 1; px 2; dx 2; fx 1; fx 2')
     return [conv(c) for c in H]
+
+
+def with_locked_drops(case, rng):
+    """A variant of the history in which handle drops happen while another thread holds the conductor mutex (harness ops Dp / Dx / Ds / Dc,
+    150 ms each): the observation must be that of the plain drop. At most four per history (time)."""
+    ops, k = [], 0
+    for o in case['ops']:
+        if o[0] in ('dp', 'dx', 'ds', 'dc') and k < 4 and rng.random() < 0.7:
+            ops.append(['D' + o[0][1]] + list(o[1:]))
+            k += 1
+        else:
+            ops.append(o)
+    return dict(case, ops=ops)
 
 
 def shrink(c):
